@@ -13,6 +13,11 @@ P = {
     "C14": dict(theorems=["Properties/C14.v"],
                 runs=[dict(cmd="pool3", quick=400, thorough=30000, shards_thorough=6, extra=corpus("C14")),
                       dict(cmd="float", quick=8000, thorough=400000)]),
+    "C20": dict(theorems=["Properties/C20.v"],
+                runs=[dict(cmd="c20", quick=3000, thorough=200000, shards_thorough=4)]),
+    "C09": dict(theorems=["Properties/C09.v"],
+                runs=[dict(cmd="appdb", quick=300, thorough=20000, shards_thorough=4),
+                      dict(cmd="c09", quick=16, thorough=600, shards_thorough=8, model=False)]),
 }
 
 
